@@ -1102,6 +1102,22 @@ def gen_cases(tier, rng, sc=None):
                                 continue
                             cases.append(mk_case(f"{fmt}:x[{idx}]", "index-long", [x], ["getitem", idx], ("get", idx, IN0)))
 
+    # unsigned / narrow coordinate dtypes under slices with a negative step or a non-zero start: (coord - start) // step
+    # must be formed in intp (seeded C16-m6: the arithmetic ran in the operand's unsigned dtype -> OverflowError)
+    for shape, idt in [((3 * 10 ** 9,), "uint32"), ((60000,), "uint16"), ((200, 250), "uint8"), ((120, 100), "int8"),
+                       ((250, 3, 200), "uint8")]:
+        x = dict(rand_spec(rng, shape, 3), idx_dtype=idt)
+        nd = len(shape)
+        c0 = x["coords"][0]
+        for sl in [("s", None, None, -1), ("s", shape[0] - 1, 0, -2), ("s", 1, None, 1), ("s", c0[0], None, -1)]:
+            idx = [sl] + [FULL] * (nd - 1)
+            cases.append(mk_case(f"coo[{idt}]:x[{idx}]", "index-narrow", [x], ["getitem", idx], ("get", idx, IN0)))
+        if nd >= 2:
+            idx = [FULL] * (nd - 1) + [("s", None, None, -1)]
+            cases.append(mk_case(f"coo[{idt}]:x[{idx}]", "index-narrow", [x], ["getitem", idx], ("get", idx, IN0)))
+            idx = [("s", None, None, -3)] + [c0[i] for i in range(1, nd)]
+            cases.append(mk_case(f"coo[{idt}]:x[{idx}]", "index-narrow", [x], ["getitem", idx], ("get", idx, IN0)))
+
     if tier == "quick":
         # a few operands with thousands of stored elements (the reference is quadratic in Coq for zip / reductions)
         big = rand_spec(rng, S3, 3000, small={0: 50})
